@@ -60,11 +60,23 @@ def _prove_loop(args):
 
 # ------------------------------------------------------------------ watchdog (bounded stand-in)
 
+# descriptions with unbalanced delimiters and other prose a scanner with hand-kept indices can trip over
+AWKWARD = [
+    "The dataset. Defaults to 'mnist", "Defaults to the user's home directory.", 'Defaults to "unterminated', "Default value is 'a.b'.", "Default: `x", "Defaults to ```(None", "Defaults to (1, 2",
+    "Defaults to [", "Defaults to {'a': 1", "one of `a or b`", "e.g. 5' 10\" tall", "ends with a backslash \\", "Defaults to", "Defaults to .", "Defaults to ...", "default", "Defaults to Defaults to 5",
+    "a" * 300, ". " * 60, "`" * 7, "'" * 5, "\t\ttabs\tinside", "non\u00a0breaking and\u2003wide spaces or `x`", "List of `a`, `b` or `c`; Tuple of (int, str). Defaults to ('a', 1)",
+]
+
+
 def _wd_inputs(tier):
     n = 3 if tier == "quick" else 4
     docs = [""]
     for k in range(1, n + 1):
         docs.extend("".join(t) for t in itertools.product(TOKENS, repeat=k))
+    for a in AWKWARD:
+        docs.append(":param a: %s\n:type a: ```str```\n\n:param b: %s\n\n:return: %s\n:rtype: ```str```\n" % (a, a, a))
+        docs.append("Doc\n\nArgs:\n  a (str): %s\n  b: %s\n\nReturns:\n  str: %s\n" % (a, a, a))
+        docs.append("Doc\n\nParameters\n----------\na : str\n    %s\nb\n    %s\n\nReturns\n-------\nr : str\n    %s\n" % (a, a, a))
     return docs
 
 
